@@ -205,6 +205,8 @@ def run(ctx):
         if last_seg(callee) in ("deref_mut", "get_mut") and erase_lifetimes(sty) == CID_CELL_TXN:
             writers.setdefault(strip_closure(caller), ln)
     ctx.floor("K1-cid-writers", "functions mutating a CowCellWriteTxn<Cid>", len(writers), 2)
+    ctx.sample("writers of the transaction change id (DerefMut on CowCellWriteTxn<Cid>): " + ", ".join(f"{T.nice(w)}@{ln}" for w, ln in sorted(writers.items())))
+    ctx.sample(f"struct Cid field order {fields}; Ord/PartialOrd derived: {[bool(impls.get(t, {}).get('derived')) for t in ('core::cmp::Ord', 'core::cmp::PartialOrd')]}")
     for w, ln in sorted(writers.items()):
         ctx.check(w in allowed, "K1-cid-writers", w, "may-mutate-txn-cid", allowed.get(w, ""),
                   f"{w} mutates the transaction's change id (DerefMut on CowCellWriteTxn<Cid>, line {ln}); only QueryServer::write and reset_server_uuid may — "
